@@ -39,11 +39,19 @@ func (node *tagBlockNode) Execute(ctx *ExecutionContext, writer TemplateWriter) 
 	}
 
 	blockWrapper := blockWrappers[lenBlockWrappers-1]
+	// "block" is restored afterwards, otherwise an enclosing block would
+	// see this block's information (e. g. a wrong block.Super) from here on
+	outerBlock, hasOuterBlock := ctx.Private["block"]
 	ctx.Private["block"] = tagBlockInformation{
 		ctx:      ctx,
 		wrappers: blockWrappers[0 : lenBlockWrappers-1],
 	}
 	err := blockWrapper.Execute(ctx, writer)
+	if hasOuterBlock {
+		ctx.Private["block"] = outerBlock
+	} else {
+		delete(ctx.Private, "block")
+	}
 	if err != nil {
 		return err
 	}
